@@ -56,6 +56,9 @@ type File struct {
 	// uchar, 2 = "element tristrips K" with an int list named vertex_indices. TrailingN records.
 	Trailing  int `json:",omitempty"`
 	TrailingN int `json:",omitempty"`
+	// BlankAfter (ascii only): an empty line follows vertex row k for every k in the list (hand-edited
+	// and concatenated files; polyform's reader skips lines that hold only white space)
+	BlankAfter []int `json:",omitempty"`
 }
 
 // LongCommentText is the long comment line (no line ending): "comment " followed by printable ascii
@@ -137,6 +140,8 @@ type Opts struct {
 	// file in five another element follows the last one polyform reads.
 	UVCount  bool
 	Trailing bool
+	// BlankLines (opt-in): ascii files may carry empty lines between vertex rows (about one file in four)
+	BlankLines bool
 }
 
 // WideExtras is the least number of unrecognised scalars of a file of the wide class.
@@ -250,6 +255,13 @@ func Gen(t *rapid.T, o Opts) File {
 	}
 	if o.UVCount && f.HasUV {
 		f.UVCountT = rapid.SampledFrom([]string{"", "int", "uint"}).Draw(t, "uvCountT")
+	}
+	if o.BlankLines && f.Format == "ascii" && rapid.Uint64().Draw(t, "blankLines")%4 == 0 {
+		for k := range f.Vals {
+			if rapid.IntRange(0, 2).Draw(t, "blankAfter") == 0 {
+				f.BlankAfter = append(f.BlankAfter, k)
+			}
+		}
 	}
 	if o.Trailing && rapid.Uint64().Draw(t, "trailing")%5 == 0 {
 		f.Trailing = rapid.IntRange(1, 2).Draw(t, "trailingKind")
@@ -376,6 +388,12 @@ func (f File) Encode() Encoded {
 		if ascii {
 			body.WriteString("\n")
 			tok(true)
+			for _, k := range f.BlankAfter {
+				if k == i {
+					body.WriteString("\n")
+					tok(true)
+				}
+			}
 		}
 	}
 	enc.VertexEnd = enc.HeaderLen + body.Len()
